@@ -93,6 +93,15 @@ func (e *Env) eval(ex Expr) (Value, error) {
 				elem := s.Typ.Underlying().(*types.Slice).Elem()
 				return e.x.elemAddr(elem, s.Arr, e.x.sliceIdx(s.Off, flatten(iv)[0])), nil
 			}
+			if id, ok := ex.X.(EIdent); ok {
+				// address of a local variable that lives in the heap
+				if a := e.fr.lookupLocal(id.Name, e.pos); a != nil && a.Heap {
+					if p, ok := e.fr.reg[a].(PtrV); ok {
+						return p, nil
+					}
+				}
+				return nil, fmt.Errorf("&%s: not an addressable local", id.Name)
+			}
 			sel, ok := ex.X.(ESel)
 			if !ok {
 				return nil, fmt.Errorf("& needs a field selection or an element")
@@ -305,6 +314,13 @@ func (e *Env) ident(name string) (Value, error) {
 		return e.x.smt.freshValue(a.Type().(*types.Pointer).Elem(), "dead."+name), nil
 	}
 	if v, ok := fr.params[name]; ok {
+		return v, nil
+	}
+	if v, ok := fr.freevars[name]; ok {
+		// a captured variable: the closure holds its address
+		if p, ok := v.(PtrV); ok {
+			return e.x.load(e.st, p), nil
+		}
 		return v, nil
 	}
 	// package-level object or package name
